@@ -1059,6 +1059,114 @@ func runC20(c *Ctx) error {
 			add("foreign-env:generic+file", "load;F:http.port=7;F:db.postgres.host=verif-A;"+generic)
 			add("foreign-env:generic+real-env", "load;E:BHS_HTTP_PORT=7;E:BHS_LOGGING_LEVEL=info;"+generic)
 		}
+		// BLANK VARIABLES: a BHS_ variable that is present but empty.  (i) it never makes Load fail, (ii) it never
+		// changes ANOTHER key - also when it is named like a SECTION (BHS_HTTP, BHS_DB_POSTGRES: no key at all),
+		// (iii) for a bool / int / uint16 / duration key the empty text is no value of the type: file or default
+		// stay in force.  (For string keys the blank leaf itself is the known finding env-empty-ignored.)
+		{
+			nd := func(k c20Key) string { // a simple non-default value
+				switch k.Type {
+				case "bool":
+					if k.Default == "true" {
+						return "false"
+					}
+					return "true"
+				case "int":
+					return "4321"
+				case "uint16":
+					return "6543"
+				case "duration":
+					return "1m30s"
+				case "enum":
+					return c20Pool(k, false)[0]
+				}
+				if k.Key == "logging.level" {
+					return "warn"
+				}
+				return "verif-A"
+			}
+			var allF, blankNonString, blankAll []string
+			sections := map[string]bool{}
+			var sectionOrder []string
+			for _, k := range keys {
+				allF = append(allF, "F:"+k.Key+"="+nd(k))
+				blankAll = append(blankAll, "E:"+c20EnvName(k.Key)+"=")
+				if k.Type != "string" && k.Type != "enum" {
+					blankNonString = append(blankNonString, "E:"+c20EnvName(k.Key)+"=")
+				}
+				parts := strings.Split(k.Key, ".")
+				for i := 1; i < len(parts); i++ {
+					sec := strings.Join(parts[:i], ".")
+					if !sections[sec] {
+						sections[sec] = true
+						sectionOrder = append(sectionOrder, sec)
+					}
+				}
+			}
+			fileAll := strings.Join(allF, ";")
+			for _, k := range keys {
+				if k.Type == "string" || k.Type == "enum" {
+					// the leaf itself is the known finding; the OTHER keys must still come from the file
+					add("blank-env:string-leaf+all-file", "load;E:"+c20EnvName(k.Key)+"=;"+fileAll)
+					continue
+				}
+				ev := c20EnvName(k.Key)
+				add("blank-env:leaf:"+k.Type, "load;E:"+ev+"=")
+				add("blank-env:leaf+file:"+k.Type, "load;E:"+ev+"=;F:"+k.Key+"="+nd(k))
+				add("blank-env:leaf+quoted-file:"+k.Type, "load;E:"+ev+"=;Q:"+k.Key+"="+nd(k))
+				add("blank-env:leaf+all-file:"+k.Type, "load;E:"+ev+"=;"+fileAll)
+			}
+			add("blank-env:every-non-string-leaf", "load;"+strings.Join(blankNonString, ";"))
+			add("blank-env:every-non-string-leaf+all-file", "load;"+strings.Join(blankNonString, ";")+";"+fileAll)
+			add("blank-env:every-leaf+all-file", "load;"+strings.Join(blankAll, ";")+";"+fileAll)
+			var blankSecs []string
+			for _, sec := range sectionOrder {
+				sv := c20EnvName(sec)
+				blankSecs = append(blankSecs, "E:"+sv+"=")
+				add("blank-env:section", "load;E:"+sv+"=")
+				add("blank-env:section+all-file", "load;E:"+sv+"=;"+fileAll)
+				add("blank-env:section+all-file:long", "load;E:"+sv+"=;"+fileAll+";A:long")
+				add("blank-env:section-nonblank+all-file", "load;E:"+sv+"=x;"+fileAll)
+				var secF, secE []string
+				for _, k := range keys {
+					if strings.HasPrefix(k.Key, sec+".") {
+						secF = append(secF, "F:"+k.Key+"="+nd(k))
+						secE = append(secE, "E:"+c20EnvName(k.Key)+"="+nd(k))
+					}
+				}
+				add("blank-env:section+section-file", "load;E:"+sv+"=;"+strings.Join(secF, ";"))
+				add("blank-env:section+section-env", "load;E:"+sv+"=;"+strings.Join(secE, ";"))
+			}
+			add("blank-env:every-section", "load;"+strings.Join(blankSecs, ";"))
+			add("blank-env:every-section+all-file", "load;"+strings.Join(blankSecs, ";")+";"+fileAll)
+			add("blank-env:every-section+all-file:cwd", "load;"+strings.Join(blankSecs, ";")+";"+fileAll+";A:cwd")
+			add("blank-env:prefix-only", "load;E:BHS_=;E:BHS=;"+fileAll)
+		}
+		// WHAT LOAD REFUSES beyond ill-typed values: a resolved logging.level zerolog.ParseLevel does not know - from the
+		// file and from the environment, with the sibling logging keys set from file / environment (they must
+		// neither rescue the level nor be lost); valid spellings in any letter case, blank and numeric levels
+		{
+			invalid := []string{"verbose", "warning", "err", "information", "128", "-129", "1.5", " info", "info ", "debug,info", "off", "all", "none"}
+			valid := []string{"WARN", "Info", "ERROR", "trace", "disabled", "panic", "fatal", "127", "-128", "-1", "0", "5"}
+			sib := map[string][2]string{"E": {"E:BHS_LOGGING_FORMAT=json;E:BHS_LOGGING_INSTANCE_NAME=verif-A;E:BHS_LOGGING_ORIGIN=false", "env"},
+				"F": {"F:logging.format=json;F:logging.instance_name=verif-A;F:logging.origin=false", "file"}}
+			for _, v := range invalid {
+				add("invalid-level:env", "load;E:BHS_LOGGING_LEVEL="+v)
+				add("invalid-level:file", "load;Q:logging.level="+v)
+				add("invalid-level:env-over-valid-file", "load;E:BHS_LOGGING_LEVEL="+v+";F:logging.level=info")
+				for _, sk := range []string{"E", "F"} {
+					add("invalid-level:env+siblings-"+sib[sk][1], "load;E:BHS_LOGGING_LEVEL="+v+";"+sib[sk][0])
+					add("invalid-level:file+siblings-"+sib[sk][1], "load;Q:logging.level="+v+";"+sib[sk][0])
+				}
+			}
+			for _, v := range valid {
+				add("valid-level:env", "load;E:BHS_LOGGING_LEVEL="+v+";"+sib["F"][0])
+				add("valid-level:file", "load;Q:logging.level="+v+";"+sib["E"][0])
+				add("valid-level:env-over-invalid-file", "load;E:BHS_LOGGING_LEVEL="+v+";Q:logging.level=verbose")
+			}
+			add("valid-level:blank-file", "load;F:logging.level=;"+sib["E"][0])
+			add("invalid-level:blank-env-over-invalid-file", "load;E:BHS_LOGGING_LEVEL=;Q:logging.level=verbose")
+		}
 		// duration spellings (quick and thorough): every spelling through the environment, the file (typed) and the
 		// file (quoted), and under an environment-over-file pair of two different spellings
 		for _, k := range keys {
